@@ -64,6 +64,13 @@ fn unary_pair<T: Scalar>(b: Kind, a: &Spec, class: Class, len: usize, rng: &mut 
     let mut env = Env::<T>::new();
     let sid = env.add_script(a_outs.clone());
     let mut v_iv = build(&Spec::un(b, Spec::Script(sid)), &mut env);
+    // (v) the same outer over the same scripted inner outputs, but handed OTHER raw inputs (zeros of
+    // both signs, negatives, huge and tiny values): a wrapper sees its inner view's outputs, never
+    // the raw input, so nothing may change
+    let sid5 = env.add_script(a_outs.clone());
+    let mut v_v = build(&Spec::un(b, Spec::Script(sid5)), &mut env);
+    const OTHER: [f64; 8] = [0.0, -0.0, -1.5, 1.0e30, 0.0, 3.25, -7.0e-30, 0.0];
+    let phase = rng.usize(0, 7);
     let mut somes = 0;
     for i in 0..upto {
         let x = T::of(xs[i]);
@@ -72,10 +79,30 @@ fn unary_pair<T: Scalar>(b: Kind, a: &Spec, class: Class, len: usize, rng: &mut 
             v_iii.update(ao);
         }
         v_iv.update(x);
+        v_v.update(T::of(OTHER[(i + phase) % 8]));
         let (r1, r3, r4) = (v_i.last(), v_iii.last(), v_iv.last());
         out.cell(&cell, 1);
         if r1.is_some() {
             somes += 1;
+        }
+        let r5 = v_v.last();
+        if !same_opt(r4, r5) {
+            out.violation(
+                b.name(),
+                "wrapper-ignores-raw-input",
+                "any",
+                format!(
+                    "{} over Script(inner outputs) at {}: step {}: fed the chain's raw inputs it reports {}, fed other raw inputs ({:?}, ...) it reports {}; the scripted inner output at this step = {}",
+                    Spec::leaf(b).show(),
+                    T::NAME,
+                    i,
+                    show_opt(r4),
+                    OTHER[(i + phase) % 8],
+                    show_opt(r5),
+                    show_opt(a_outs[i])
+                ),
+            );
+            return;
         }
         if !(same_opt(r1, r3) && same_opt(r1, r4)) {
             out.violation(
